@@ -182,6 +182,13 @@ def run_diffpath(task):
             return
         if I.check(cond):
             roles.add(role)
+            # prefer a witness that is a plain relative path (replayable on a real file system)
+            pth = holder['path']
+            nice = [pth[0] != 47, pth[-1] != 47, pth[-1] != 46, pth[0] != 46] + \
+                   [z3.Not(z3.And(pth[i] == 47, pth[i + 1] == 47)) for i in range(len(pth) - 1)] + \
+                   [z3.Not(z3.And(pth[i] == 47, pth[i + 1] == 46)) for i in range(len(pth) - 1)]
+            if not I.check(cond, *nice):
+                I.check(cond)
             m = I.solver.model()
             out['violations'].append(dict(role=role, summary=summary,
                                           target=model_bytes(m, holder['target']).decode('latin1'),
@@ -298,7 +305,8 @@ def confirm(binary, v, idx):
             p = os.path.join(d, rel + '.py')
             os.makedirs(os.path.dirname(p), exist_ok=True)
             open(p, 'w').write('# <block name="k">\nx\n# </block>\n')
-            diff = 'diff --git a/%s.py %s.py\n--- a/%s.py\n+++ %s.py\n@@ -1 +1 @@\n-old\n+# <block name="k">\n' % (rel, tgt, rel, tgt)
+            # the old path differs from the new one (a rename with an edit), as in the harness
+            diff = 'diff --git a/x.py %s.py\n--- a/x.py\n+++ %s.py\n@@ -1 +1 @@\n-old\n+# <block name="k">\n' % (tgt, tgt)
             r = run_blockwatch(binary, d, ['list'], stdin=diff.encode())
         finally:
             shutil.rmtree(d, ignore_errors=True)
